@@ -414,7 +414,7 @@ func (r ruleData) toAuditRuleData() (*auditRuleData, error) {
 		for _, syscallNum := range r.syscalls {
 			word := syscallNum / 32
 			bit := 1 << (syscallNum - (word * 32))
-			if int(word) > len(data.Mask) {
+			if int(word) >= len(data.Mask) {
 				return nil, fmt.Errorf("invalid syscall number %v", syscallNum)
 			}
 			data.Mask[word] |= uint32(bit)
